@@ -314,6 +314,13 @@ def handleCls (cls : String) (j : Json) : E Out := do
     let M : Coo CQ := fftshift sh axes false
     let Mi : Coo CQ := fftshift sh axes true
     pure (withShapes { modes := [(1, M), (2, Mi), (4, Mi), (8, M)] } (shapesOf doms) (shapesOf doms))
+  | "MatrixProductSpaces" =>
+    let sizes ← req (fNatList? j "sizes")
+    let sp ← req (fNatList? j "spaces")
+    let m ← req ((field? j "m").bind cqList?)
+    let n := prodL (sp.map fun s => sizes.getD s 1)
+    if m.length != n * n then throw "ValueError"
+    pure (twoModes (matrixProductSp sizes sp m))
   | "MatrixProductOperator" =>
     let pre ← req (fNat? j "pre")
     let n ← req (fNat? j "n")
